@@ -1,6 +1,6 @@
 (* C03 -- parsing is total: value or error, never a panic; recursion bounded. *)
 From Coq Require Import SpecFloat.
-Require Import Base Value Float PrintOptions ParseOptions Reader Scan Num Parser DepthProofs DepthBoundProofs FuelProofs FloatFuel SourcesAgree.
+Require Import Base Value Float PrintOptions ParseOptions Reader Scan Num Parser DepthProofs DepthBoundProofs FuelProofs FloatFuel SourcesAgree RejectProofs.
 
 (* Reader-level code (scanners, escapes, numbers, tokens, whitespace, byte
    vectors, end_seq/expect_end) cannot panic by construction: its error type
@@ -140,6 +140,28 @@ Theorem C03_depth_bounded : forall ro alpha fast std_parse k inp v,
   from_trait ro alpha fast std_parse k inp = POk v -> (vdepth v <= 127)%nat.
 Proof. exact from_trait_depth. Qed.
 Print Assumptions C03_depth_bounded.
+
+(* ... and what nests too deeply is rejected with RecursionLimitExceeded, not with
+   some other error: any input that begins with 128 or more nesting openers -
+   ( [ #( ' ` , ,@ in any mixture, under every option set (brackets as lists or
+   as vectors) and from every source, whatever follows - makes the entry
+   point return exactly that error; and at every call a run of D openers
+   exhausts a budget of D and hands the budget back. The error raised at the
+   innermost opener is the one reported because the recovery code of every
+   enclosing form keeps the body's error. *)
+Theorem C03_reject_code : forall ro alpha fast std_parse k (ops : list opener) (rest : bytes), (128 <= length ops)%nat ->
+  exists l c, from_trait ro alpha fast std_parse k (bytes_events (otexts ops ++ rest)) =
+              PErr (XErr (ESyntax RecursionLimitExceeded l c)).
+Proof. exact over_deep_rejected. Qed.
+Print Assumptions C03_reject_code.
+
+Theorem C03_reject_code_every_call : forall ro alpha fast std_parse (ops : list opener) fuel r (rest : bytes),
+  ops <> [] -> N.of_nat (length ops) <= 128 ->
+  (2 * length ops + length (otexts ops ++ rest) + 3 <= fuel)%nat -> ReaderProofs.at_bytes r (otexts ops ++ rest) ->
+  exists l c s', next_value ro alpha fast std_parse fuel (mk r (N.of_nat (length ops))) =
+                   (PErr (XErr (ESyntax RecursionLimitExceeded l c)), s') /\ depth s' = N.of_nat (length ops).
+Proof. exact openers_exhaust. Qed.
+Print Assumptions C03_reject_code_every_call.
 
 Definition parens (n : nat) : bytes := repeat 40 n ++ [120] ++ repeat 41 n.
 Definition quotes (n : nat) : bytes := repeat 39 n ++ [120].
